@@ -65,3 +65,29 @@ package bridgeservice
 //@   ensures[covering-or-error] result1 == nil ==> exists(l, Hash, lerIndex(l) >= depositCount && isVerified(b.networkID, l, infoRER(result0)))
 //@   ensures[not-yet-covered-is-an-error] (result1 != nil) ==> result0 == 0
 //@   loop 0 invariant bestResult != nil && lerIndex(bestResult.ExitRoot) >= depositCount && isVerified(b.networkID, bestResult.ExitRoot, bestResult.RollupExitRoot)
+
+// ---- the claim-proof endpoint (C12): the HTTP plumbing (gin, metrics) is outside the subset and left opaque; what
+// is checked is the wiring of the four look-ups: the L1 info leaf is the one asked for, the local-exit proof is asked
+// from the L1 bridge syncer against that leaf's mainnet exit root (or from the L2 syncer against the local exit root
+// the rollup exit tree holds for this network under that leaf's rollup exit root), for the deposit count asked for,
+// and the rollup-exit proof is asked for this network against that leaf's rollup exit root.
+//@ interface github.com/agglayer/aggkit/bridgeservice.L1InfoTreer.GetInfoByIndex (self, ctx, index)
+//@   modifies nothing
+//@   ensures result1 == nil ==> result0 != nil
+//@ interface github.com/agglayer/aggkit/bridgeservice.Bridger.GetProof (self, ctx, depositCount, localExitRoot)
+//@   modifies nothing
+//@ interface github.com/agglayer/aggkit/bridgeservice.L1InfoTreer.GetLocalExitRoot (self, ctx, networkID, rollupExitRoot)
+//@   modifies nothing
+//@ interface github.com/agglayer/aggkit/bridgeservice.L1InfoTreer.GetRollupExitTreeMerkleProof (self, ctx, networkID, root)
+//@   modifies nothing
+//@ extern github.com/agglayer/aggkit/bridgeservice/types.ConvertToProofResponse (proof)
+//@   modifies nothing
+//@ func (b *BridgeService) ClaimProofHandler
+//@   props C12
+//@   requires b != nil && b.logger != nil && b.l1InfoTree != nil && b.bridgeL1 != nil && b.bridgeL2 != nil && c != nil
+//@   modifies heap
+//@   assert call:GetInfoByIndex recv == b.l1InfoTree && arg1 == l1InfoTreeIndex
+//@   assert call:GetProof:0 recv == b.bridgeL1 && networkID == 0 && arg1 == depositCount && arg2 == info.MainnetExitRoot
+//@   assert call:GetLocalExitRoot recv == b.l1InfoTree && arg1 == networkID && arg2 == info.RollupExitRoot && networkID == b.networkID
+//@   assert call:GetProof:1 recv == b.bridgeL2 && networkID == b.networkID && arg1 == depositCount && arg2 == localExitRoot
+//@   assert call:GetRollupExitTreeMerkleProof recv == b.l1InfoTree && (arg1 == 0 || arg1 == b.networkID) && arg2 == info.RollupExitRoot
